@@ -40,6 +40,18 @@ def tok_prog(ctx):
     p = ctx.p
     C.reset()
     src, vals = PG.build(ctx)
+    if "prog" in p:
+        # a symbolic name must not coincide with a non-name word of the program (e.g. the edit
+        # descriptor I1): the oracle identifies name tokens by value.  Decided on the template,
+        # before the parse, identically in both execution modes.
+        used = G.used_holes(p["prog"])
+        defaults = [T.DEFAULTS[t] for t in used if t[0] == "n"]
+        plain = [w.lower() for k, w in LX.tokens(G.program_text(p["prog"], {})) if k == "w"]
+        for t in vals:
+            if t[0] == "n":
+                for w in plain:
+                    if len(w) == len(vals[t]) and w not in [d.lower() for d in defaults]:
+                        G.require(ctx, vals[t].lower() != w)
     ctx.observe("src", src)
     r = C.outcome(lambda: C.parse(src, p["std"], p["ic"]))
     ctx.observe("outcome", r[0])
@@ -53,14 +65,6 @@ def tok_prog(ctx):
     ctx.check(len(a) == len(b), "printed source has %s tokens than the program" % ("more" if len(b) > len(a) else "fewer"))
     if len(a) == len(b):
         names = [vals[t] if t in vals else T.DEFAULTS[t] for t in G.used_holes(p["prog"]) if t[0] == "n"]
-        # a symbolic name must not coincide with a non-name word of the program (e.g. the edit
-        # descriptor I1): the oracle identifies name tokens by value
-        fixed = [nm for nm in names if api.is_concrete(nm)]
-        for nm in names:
-            if not api.is_concrete(nm):
-                for k, w in a:
-                    if k == "w" and api.is_concrete(w) and len(w) == len(nm) and w not in fixed:
-                        G.require(ctx, nm.lower() != w.lower())
         ctx.check(LX.same_tokens(a, b, names), "printed tokens differ from the program's tokens")
 
 
